@@ -27,5 +27,13 @@ Theorem C09_non_xml_char_ill_formed : forall s : text, forallb xml_char s = fals
 Proof. exact non_xml_char_ill_formed. Qed.
 Print Assumptions C09_non_xml_char_ill_formed.
 
+(* attribute values that carry a source string (icon theme names): the same round trip, for the attribute writer after the repair of F23
+   (tab / LF / CR as character references); quick-xml's own attribute escaping loses them (attribute-value normalisation) *)
+Theorem C09_attribute_roundtrip : forall s : text, forallb xml_char s = true -> attr_read_back (escape_attr s) = Some s.
+Proof. exact escape_attr_roundtrip. Qed.
+Print Assumptions C09_attribute_roundtrip.
+Theorem C09_attribute_escape_refuted : attr_read_back (escape [97; 9; 98]) = Some [97; 32; 98] /\ attr_read_back (escape [13; 10]) = Some [32].
+Proof. exact escape_in_attr_refuted. Qed.
+
 Example C09_ex : read_back (escape_text [60; 38; 62; 34; 39; 13; 10; 9; 233; 128512]) = Some [60; 38; 62; 34; 39; 13; 10; 9; 233; 128512].
 Proof. vm_compute. reflexivity. Qed.
